@@ -1,7 +1,7 @@
 SPECIFICATION Spec
 CONSTANTS
   MaxDepth = 3
-  N = 6
+  N = 7
   Alphabet = "struct"
   MaxStr = 99
   EmitStates = FALSE
